@@ -76,11 +76,31 @@ def case(arg):
         for f in files:
             stmts = fgen.render_file(f, fgen.Style(style.seed))
             layout.assign_labels(stmts, random.Random(seed + 5))
+            # optionally move a run of declarations into an INCLUDEd file (same form as the including file; an INCLUDE line is never continued)
+            inc = None
+            runs = [i for i in range(len(stmts) - 1) if stmts[i].kind == "code" and not stmts[i].label and stmts[i + 1].kind == "code" and not stmts[i + 1].label]
+            if runs and rng.random() < 0.35:
+                i = rng.choice(runs)
+                j = i + 2
+                while j < len(stmts) and j - i < 4 and stmts[j].kind == "code" and not stmts[j].label and rng.random() < 0.5:
+                    j += 1
+                inc = (f"inc_{f.name}.inc", stmts[i:j], f"vfincmark{seed % 1000}=0")
+                stmts = stmts[:i] + [fgen.Stmt(inc[2])] + stmts[j:]
+                feats.add("include_file")
             free_text = layout.Layout(seed, plain=True).free(stmts)
             fixed_text = lay_fixed.fixed(stmts, length_limit=length_limit, junk=length_limit)
+            if inc:
+                free_text = free_text.replace(inc[2], f"include '{inc[0]}'")
+                fixed_text = fixed_text.replace(inc[2], f"include '{inc[0]}'")
+                open(os.path.join(free_root, inc[0]), "w").write(layout.Layout(seed + 1, plain=True).free(inc[1]))
+                inc_fixed = lay_fixed.fixed(inc[1], length_limit=length_limit, junk=length_limit)
+                open(os.path.join(fixed_root, inc[0]), "w").write(inc_fixed)
+                feats |= input_features(inc_fixed)
             open(os.path.join(free_root, f.name + ".f90"), "w").write(free_text)
             open(os.path.join(fixed_root, f.name + ".f"), "w").write(fixed_text)
             texts[f.name] = {"free": free_text, "fixed": fixed_text}
+            if inc:
+                texts[f.name]["included_fixed"] = inc_fixed
             feats |= input_features(fixed_text)
         settings = {"fixed_length_limit": length_limit}
         rfree = core.run_alone(observe_case, {"root": free_root, "settings": settings}, timeout=120)
